@@ -323,6 +323,14 @@ def nlist(stmts, info, loop_tail=False):
         out.extend(nstmt(st, info))
         i += 1
     out = [s for s in out if not isinstance(s, ast.Pass)] or ([ast.Pass()] if out else [])
+    # adjacent guards with the same leaving body are one guard: `if a: X!` ; `if b: X!`  ==  `if a or b: X!`
+    k = 0
+    while k + 1 < len(out):
+        s1, s2 = out[k], out[k + 1]
+        if isinstance(s1, ast.If) and isinstance(s2, ast.If) and not s1.orelse and not s2.orelse and _ends_terminal(s1.body) and K(s1.body) == K(s2.body):
+            out[k:k + 2] = [ast.If(_bool(ast.BoolOp(ast.Or(), [s1.test, s2.test]), True), s1.body, [])]
+            continue
+        k += 1
     # `if t: A!` followed by a rest that leaves as well is an if/else with two leaving arms: either may be written first
     k = len(out) - 2
     while k >= 0:
@@ -456,14 +464,14 @@ def _accumulate_loops(stmts, info):
 
 
 def _retail(out):
-    if out and isinstance(out[-1], ast.If) and not out[-1].orelse and not _is_guard(out[-1]):
-        last = out.pop()
-        out.append(ast.If(neg(last.test), [ast.Continue()], []))
-        out.extend(last.body)
-        return _retail(out)
-    if out and isinstance(out[-1], ast.Continue) and len(out) > 1:
-        out.pop()                                           # a trailing `continue` at the very end of a loop body is a no-op
-        return _retail(out)
+    """Loop body: a `continue` guard is the nested form `if not t: <rest of the body>`; a trailing `continue` is a no-op."""
+    out = list(out)
+    while len(out) > 1 and isinstance(out[-1], ast.Continue):
+        out.pop()
+    for k, s in enumerate(out):
+        if isinstance(s, ast.If) and not s.orelse and len(s.body) == 1 and isinstance(s.body[0], ast.Continue) and k + 1 < len(out):
+            rest = _retail(out[k + 1:])
+            return out[:k] + _merge_guard(neg(s.test), rest)
     return out
 
 
@@ -573,6 +581,17 @@ class Restorer:
             return False
         ic, ir = FnInfo(cf), FnInfo(rf)
         before = ast.dump(cf)
+        if _args_key(cf.args) == _args_key(rf.args) and K(cf.decorator_list) == K(rf.decorator_list):
+            try:
+                same = alpha_key(cf) == alpha_key(rf)
+            except RecursionError:
+                same = False
+            if same:                                        # equal up to N and a consistent renaming of locals: the reference's spelling, whole
+                cf.body = copy.deepcopy(rf.body)
+                cf.args = copy.deepcopy(rf.args)
+                cf.returns = copy.deepcopy(rf.returns)
+                self.restored += len(rf.body)
+                return True
         cf.body = self.block(cf.body, rf.body, ic, ir, False)
         if _args_key(cf.args) == _args_key(rf.args):      # annotations are not behaviour
             cf.args = copy.deepcopy(rf.args)
@@ -1074,3 +1093,228 @@ class _ExprInline(ast.NodeTransformer):
                 self.used.add(h.fn.name)
                 return inst[1]
         return node
+
+
+# ------------------------------------------------------------------------------------------------ names: webs and canonical local names
+def _occ(node, x):
+    """Number of occurrences of the name x in node (nested scopes included)."""
+    return sum(1 for n in ast.walk(node) if (isinstance(n, ast.Name) and n.id == x) or (isinstance(n, ast.ExceptHandler) and n.name == x)
+               or (isinstance(n, (ast.FunctionDef, ast.AsyncFunctionDef)) and n.name == x) or (isinstance(n, ast.arg) and n.arg == x))
+
+
+def _rename_all(node, x, new):
+    for n in ast.walk(node):
+        if isinstance(n, ast.Name) and n.id == x:
+            n.id = new
+        elif isinstance(n, ast.ExceptHandler) and n.name == x:
+            n.name = new
+
+
+def _group_start(st, x):
+    """Does st give x a value of its own before anything reads x?  'assign': x = <no x> ; 'for': for .. x .. in <no x>: with every other occurrence inside its body"""
+    if isinstance(st, ast.Assign) and any(isinstance(t, ast.Name) and t.id == x for t in st.targets) and not _occ(st.value, x) \
+            and all(isinstance(t, ast.Name) or not _occ(t, x) for t in st.targets):
+        return "assign"
+    if isinstance(st, ast.For) and _occ(st.target, x) and not _occ(st.iter, x) and not any(_occ(s, x) for s in st.orelse) \
+            and all(isinstance(n, ast.Name) for n in ast.walk(st.target) if isinstance(n, (ast.Name, ast.Attribute, ast.Subscript))):
+        return "for"
+    return None
+
+
+def _closed(st, x):
+    """A compound statement inside which every use of x starts from a value given there (nothing flows in; what flows out is only read by nobody, see _partition)."""
+    if isinstance(st, ast.If):
+        heads, blocks = [st.test], [st.body, st.orelse]
+    elif isinstance(st, ast.While):
+        heads, blocks = [st.test], [st.body, st.orelse]
+    elif isinstance(st, (ast.For, ast.AsyncFor)):
+        heads, blocks = [st.target, st.iter], [st.body, st.orelse]
+    elif isinstance(st, (ast.With, ast.AsyncWith)):
+        heads, blocks = [w.context_expr for w in st.items] + [w.optional_vars for w in st.items if w.optional_vars is not None], [st.body]
+    else:
+        return False
+    if any(_occ(h, x) for h in heads):
+        return False
+    return all(_partition(b, x) is not None for b in blocks if any(_occ(s, x) for s in b))
+
+
+def _partition(block, x):
+    """Split the statements of block that mention x into webs (runs that start with a statement giving x a fresh value); None if x's value may flow in from outside
+    or out of a loop / conditional into a later read."""
+    holders = [s for s in block if _occ(s, x)]
+    groups = []
+    for s in holders:
+        k = _group_start(s, x)
+        if k == "for":
+            groups.append(("for", [s]))
+        elif k == "assign":
+            groups.append(("assign", [s]))
+        elif _closed(s, x):
+            groups.append(("closed", [s]))
+        elif groups and groups[-1][0] == "assign":
+            groups[-1][1].append(s)
+        else:
+            return None
+    return [g for _, g in groups]
+
+
+def split_webs(fn, info):
+    """Rename apart the independent uses of one local name (a loop variable used by two loops, a scratch name reused by the arms of an if/elif chain):
+    every web starts by giving the name a value of its own, so no value flows between webs and the renaming cannot be observed."""
+    counter = [0]
+    skip = set(info.special) | set(info.deferred)
+    in_loop = set()
+    for lp in ast.walk(fn):
+        if isinstance(lp, (ast.For, ast.While, ast.AsyncFor)) or (isinstance(lp, (ast.FunctionDef, ast.Lambda)) and lp is not fn):
+            in_loop |= {id(n) for n in ast.walk(lp) if n is not lp}
+    for _ in range(6):
+        changed = False
+        names = sorted({n.id for n in ast.walk(fn) if isinstance(n, ast.Name) and isinstance(n.ctx, ast.Store)} - skip)
+        for x in names:
+            total = _occ(fn, x)
+            for node in ast.walk(fn):
+                # (a) sibling statements of one block
+                for f in ("body", "orelse", "finalbody"):
+                    blk = getattr(node, f, None)
+                    if not (isinstance(blk, list) and blk and isinstance(blk[0], ast.stmt)) or isinstance(node, ast.ClassDef):
+                        continue
+                    inside = sum(_occ(s, x) for s in blk)
+                    if inside != total or sum(1 for s in blk if _occ(s, x)) < 2:
+                        continue
+                    groups = _partition(blk, x)
+                    if groups and len(groups) > 1:
+                        for g in groups:
+                            new = f"{x}__w{counter[0]}"
+                            counter[0] += 1
+                            for s in g:
+                                _rename_all(s, x, new)
+                        changed = True
+                        break
+                else:
+                    # (b) the exclusive arms of an if / elif chain
+                    if isinstance(node, ast.If):
+                        arms, cur, tests = [], node, []
+                        while True:
+                            tests.append(cur.test)
+                            arms.append(cur.body)
+                            if len(cur.orelse) == 1 and isinstance(cur.orelse[0], ast.If):
+                                cur = cur.orelse[0]
+                            else:
+                                if cur.orelse:
+                                    arms.append(cur.orelse)
+                                break
+                        with_x = [a for a in arms if any(_occ(s, x) for s in a)]
+                        if len(with_x) >= 2 and not any(_occ(t, x) for t in tests) and sum(_occ(s, x) for a in with_x for s in a) == total:
+                            closed = [a for a in with_x if _partition(a, x)]
+                            # arms are exclusive; outside a loop no value can reach one arm from another, so the self-contained arms can be renamed apart one by one
+                            if len(closed) == len(with_x) or (closed and id(node) not in in_loop):
+                                for a in closed:
+                                    new = f"{x}__w{counter[0]}"
+                                    counter[0] += 1
+                                    for s in a:
+                                        _rename_all(s, x, new)
+                                changed = len(closed) >= 2 or len(closed) < len(with_x)
+                    if changed:
+                        break
+                    continue
+                break
+            if changed:
+                break
+        if not changed:
+            break
+    # nested functions are scopes of their own
+    todo = list(ast.iter_child_nodes(fn))
+    while todo:
+        n = todo.pop()
+        if isinstance(n, (ast.FunctionDef, ast.AsyncFunctionDef)):
+            split_webs(n, FnInfo(n))
+        elif not isinstance(n, (ast.Lambda, ast.ClassDef)):
+            todo.extend(ast.iter_child_nodes(n))
+
+
+def alpha_key(fn):
+    """Dump of fn's normal form with its webs renamed apart and every local (variables, nested functions and their parameters, handler names) named after the
+    position of its first occurrence: equal keys = equal up to a consistent renaming of locals (and the equivalences of N)."""
+    info = FnInfo(fn)
+    f2 = copy.deepcopy(fn)
+    f2.body = nlist(f2.body, info)
+    if f2.body and isinstance(f2.body[0], ast.Expr) and isinstance(f2.body[0].value, ast.Constant) and isinstance(f2.body[0].value.value, str):
+        f2.body = f2.body[1:] or [ast.Pass()]
+    f2 = ast.fix_missing_locations(f2)
+    info2 = FnInfo(f2)
+    split_webs(f2, info2)
+    fixed = set(_param_names(fn)[0]) | set(_param_names(fn)[1]) | {p for p in _param_names(fn)[2:] if p} | {x for x in info2.special if info2.stores.get(x, 0) and x not in info2.loads}
+    globals_ = {x for n in ast.walk(f2) if isinstance(n, (ast.Global, ast.Nonlocal)) for x in n.names}
+    local = set()
+    for n in ast.walk(f2):
+        if isinstance(n, ast.Name) and isinstance(n.ctx, (ast.Store, ast.Del)):
+            local.add(n.id)
+        elif isinstance(n, ast.ExceptHandler) and n.name:
+            local.add(n.name)
+        elif isinstance(n, (ast.FunctionDef, ast.AsyncFunctionDef)) and n is not f2:
+            local.add(n.name)
+            # parameters of nested helpers are private as long as no call names them
+            kw_used = {k.arg for c in ast.walk(f2) if isinstance(c, ast.Call) and isinstance(c.func, ast.Name) and c.func.id == n.name for k in c.keywords}
+            for a in n.args.posonlyargs + n.args.args:
+                if a.arg not in kw_used:
+                    local.add(("param", n.name, a.arg))
+        elif isinstance(n, ast.Lambda):
+            for a in n.args.args:
+                local.add(("param", id(n), a.arg))
+    local -= fixed | globals_
+    mapping, order = {}, []
+
+    def name_for(x):
+        if x not in mapping:
+            mapping[x] = f"_v{len(mapping)}"
+        return mapping[x]
+
+    def rec(node, scope):
+        """scope: names that are locals here (outer locals + this nested function's parameters)"""
+        if isinstance(node, (ast.FunctionDef, ast.AsyncFunctionDef)) and node is not f2:
+            if node.name in scope:
+                node.name = name_for(node.name)
+            inner = set(scope)
+            for a in node.args.posonlyargs + node.args.args + node.args.kwonlyargs + [y for y in (node.args.vararg, node.args.kwarg) if y]:
+                if ("param", node.name if node.name not in mapping.values() else node.name, a.arg) in local or any(isinstance(t, tuple) and t[2] == a.arg and t[0] == "param" for t in local):
+                    key = ("p", id(node), a.arg)
+                    mapping.setdefault(key, f"_v{len(mapping)}")
+                    inner = {s for s in inner if s != a.arg} | {("p", id(node), a.arg)}
+                    a.arg = mapping[key]
+                    a.annotation = None
+                else:
+                    inner.discard(a.arg)
+            for d in node.args.defaults + [d for d in node.args.kw_defaults if d is not None]:
+                rec(d, scope)
+            node.returns = None
+            for st in node.body:
+                rec(st, inner)
+            return
+        if isinstance(node, ast.Lambda):
+            inner = set(scope)
+            for a in node.args.args:
+                key = ("p", id(node), a.arg)
+                mapping.setdefault(key, f"_v{len(mapping)}")
+                inner = {s for s in inner if s != a.arg} | {key}
+                a.arg = mapping[key]
+            rec(node.body, inner)
+            return
+        if isinstance(node, ast.Name):
+            pk = next((s for s in scope if isinstance(s, tuple) and s[2] == node.id), None)
+            if pk is not None:
+                node.id = mapping[pk]
+            elif node.id in scope:
+                node.id = name_for(node.id)
+            return
+        if isinstance(node, ast.ExceptHandler) and node.name and node.name in scope:
+            node.name = name_for(node.name)
+        for ch in ast.iter_child_nodes(node):
+            rec(ch, scope)
+
+    plain = {x for x in local if isinstance(x, str)}
+    for a in f2.args.posonlyargs + f2.args.args + f2.args.kwonlyargs:
+        a.annotation = None
+    f2.returns = None
+    for st in f2.body:
+        rec(st, plain)
+    return ast.dump(ast.Module(f2.body, []))
